@@ -37,13 +37,15 @@ def nominal_requests():
     R["params"] = {"command": "blockchainParameters", "version": 5}
     R["signerHeartbeat"] = {"command": "signerHeartbeat", "version": 5, "udValue": rng.bytes(16).hex()}
     R["uiHeartbeat"] = {"command": "uiHeartbeat", "version": 5, "udValue": rng.bytes(32).hex()}
+    # the device is already in the UI heartbeat application: the heartbeat is gathered in place
+    R["uiHeartbeat-inplace"] = {"command": "uiHeartbeat", "version": 5, "udValue": rng.bytes(32).hex()}
     R["v1-getPubKey"] = {"command": "getPubKey", "version": 1, "keyId": P[3]}
     R["v1-sign"] = reqs.sign_request(P[5], hash_hex=rng.bytes(32).hex(), version=1)
     return R
 
 
 # per-dialogue configuration of the conforming device (attribute -> value)
-DEVCFG = {"advance-partial": {"advance_final": "partial"}}
+DEVCFG = {"advance-partial": {"advance_final": "partial"}, "uiHeartbeat-inplace": {"mode": 4}}
 
 
 def configure(dev, name):
